@@ -170,6 +170,158 @@ def deliver_pull_obligation(ctx, R, prover, pid="C09"):
                  ["deliver_pull (state machine)", "tmp_path"], None, covers={"ok-reachable": ok})
 
 
+def pull_stream_obligation(ctx, R, prover, pid="C09"):
+    """dir_sync::transfer_file_from_remote (the body inside #[instrument]) from MIR: the ssh child, its stdout pipe and the
+    local file are recorders with arbitrary outcomes"""
+    pctx = PullCtx()
+    ex = Executor(pctx.mir, pctx.enums, K=4)
+    ex.impl_index = pctx.idx
+    stdmodels.install_core(ex)
+    stdmodels.install_time_fs(ex)
+    itermodels.install(ex)
+    ex.byte_cap = 4
+    patchmodels.install(ex)
+    codecmodels.install(ex)
+    fsmodels.install(ex)
+    asyncmodels.install(ex)
+    LOCAL = z3.Int("LOCAL_PATH")
+    ev = {}
+
+    def opaque(ex_, st, args, dest_ty, func, where):
+        return VOpaque(func[:30])
+
+    def text(ex_, st, args, dest_ty, func, where):
+        return strv(lit_id("text:" + where))
+
+    def cmd_new(ex_, st, args, dest_ty, func, where):
+        return VStruct("Command", [])
+
+    def cmd_set(ex_, st, args, dest_ty, func, where):
+        return args[0]
+
+    def spawn(ex_, st, args, dest_ty, func, where):
+        ok = ex_.fresh_bool("spawn_ok")
+        has_out = ex_.fresh_bool("child_stdout_present")
+        ev["spawn"] = fsmodels.record(ex_, st, "spawn-ssh", path=I(0), ok=ok)
+        ev["has_out"] = has_out
+        child = VStruct("Child", [VOpaque("inner"), VEnum("Option", I(0), {0: []}), opt_sym(has_out, VStruct("ChildStdout", [])), VEnum("Option", I(0), {0: []})])
+        return fsmodels.io_result(ex_, ok, child)
+
+    def opt_take(ex_, st, args, dest_ty, func, where):
+        ref = args[0]
+        cur = ex_.deref(st, ref)
+        ex_.store_ref(st, ref, VEnum("Option", I(0), {0: []}))
+        return cur
+
+    def ok_or_else(ex_, st, args, dest_ty, func, where):
+        o = fsmodels._deep(ex_, st, args[0])
+        return VEnum("Result", simp(z3.If(o.discr == 1, I(0), I(1))), {0: list(o.pay.get(1, [VOpaque("none")])), 1: [strv(lit_id("no stdout"))]})
+
+    def tcreate(ex_, st, args, dest_ty, func, where):
+        ok = ex_.fresh_bool("create_ok")
+        p_ = fsmodels.path_term(ex_, st, args[0])
+        e = fsmodels.record(ex_, st, "create", path=p_, ok=ok, flags={"create": z3.BoolVal(True), "truncate": z3.BoolVal(True), "write": z3.BoolVal(True),
+                                                                         "read": z3.BoolVal(False), "append": z3.BoolVal(False), "create_new": z3.BoolVal(False)})
+        return asyncmodels.ready(fsmodels.io_result(ex_, ok, VStruct("File", [VInt(p_, "usize"), VInt(I(e["seq"]), "usize")])))
+
+    def topen(ex_, st, args, dest_ty, func, where):
+        oo = fsmodels._deep(ex_, st, args[0])
+        ok = ex_.fresh_bool("open_ok")
+        p_ = fsmodels.path_term(ex_, st, args[1])
+        flags = {k: oo.f[i].t for i, k in enumerate(fsmodels.OO_FLAGS)} if isinstance(oo, VStruct) and oo.name == "OpenOptions" else {}
+        e = fsmodels.record(ex_, st, "open-options", path=p_, ok=ok, flags=flags)
+        return asyncmodels.ready(fsmodels.io_result(ex_, ok, VStruct("File", [VInt(p_, "usize"), VInt(I(e["seq"]), "usize")])))
+
+    def tcopy(ex_, st, args, dest_ty, func, where):
+        f = fsmodels._file_of(ex_, st, args[1])
+        ok = ex_.fresh_bool("stream_ok")
+        n = ex_.fresh_int("streamed", ty="u64")
+        ev.setdefault("copies", []).append(fsmodels.record(ex_, st, "stream-into", path=f.f[0].t, ok=ok, count=n))
+        return asyncmodels.ready(fsmodels.io_result(ex_, ok, VInt(n, "u64")))
+
+    def tflush(ex_, st, args, dest_ty, func, where):
+        ok = ex_.fresh_bool("flush_ok")
+        ev.setdefault("flushes", []).append(fsmodels.record(ex_, st, "flush-file", path=fsmodels._file_of(ex_, st, args[0]).f[0].t, ok=ok))
+        return asyncmodels.ready(fsmodels.io_result(ex_, ok))
+
+    def wait(ex_, st, args, dest_ty, func, where):
+        ok = ex_.fresh_bool("wait_ok")
+        succ = ex_.fresh_bool("exit_success")
+        ev["wait"] = fsmodels.record(ex_, st, "wait-child", path=I(0), ok=ok, success=succ)
+        out = VStruct("Output", [VStruct("ExitStatus", [VBool(succ)]), VSeq(z3.K(z3.IntSort(), I(0)), I(0), I(0), "u8"), VSeq(z3.K(z3.IntSort(), I(0)), I(0), I(0), "u8")])
+        return asyncmodels.ready(fsmodels.io_result(ex_, ok, out))
+
+    def success(ex_, st, args, dest_ty, func, where):
+        return VBool(fsmodels._deep(ex_, st, args[0]).f[0].t)
+
+    def poll_ready(ex_, st, args, dest_ty, func, where):
+        pin = args[0]
+        ref = pin.f[0] if isinstance(pin, VStruct) and pin.name == "Pin" else pin
+        v = fsmodels._deep(ex_, st, ref)
+        if not (isinstance(v, VStruct) and v.name == "ReadyFuture"):
+            raise Unsupported("poll of %r" % (v,))
+        return VEnum("Poll", I(0), {0: [v.f[0]]})
+    ex.models = [(re.compile(r"^std::str::<impl str>::replace::<char>$|^(std::string::)?String::from_utf8_lossy$"), text, "text plumbing (opaque)"),
+                 (re.compile(r"^tokio::process::Command::new::<"), cmd_new, "Command::new"),
+                 (re.compile(r"^tokio::process::Command::(arg|stdout|stderr|stdin)::<"), cmd_set, "Command builder"),
+                 (re.compile(r"^Stdio::piped$|^Stdio::null$"), opaque, "Stdio"),
+                 (re.compile(r"^tokio::process::Command::spawn$"), spawn, "Command::spawn (recorded; any outcome)"),
+                 (re.compile(r"^(std::option::)?Option::<tokio::process::ChildStdout>::take$"), opt_take, "Option::take"),
+                 (re.compile(r"^(std::option::)?Option::<tokio::process::ChildStdout>::ok_or_else::<"), ok_or_else, "Option::ok_or_else"),
+                 (re.compile(r"^tokio::fs::File::create::<"), tcreate, "tokio File::create (recorded: create+truncate)"),
+                 (re.compile(r"^tokio::fs::OpenOptions::open::<"), topen, "tokio OpenOptions::open (recorded with its flags)"),
+                 (re.compile(r"^tokio::io::copy::<tokio::process::ChildStdout, tokio::fs::File>$"), tcopy, "tokio::io::copy(child stdout -> file) (recorded)"),
+                 (re.compile(r"^<tokio::fs::File as (tokio::io::)?AsyncWriteExt>::flush$"), tflush, "File::flush (recorded)"),
+                 (re.compile(r"^tokio::process::Child::wait_with_output$"), wait, "Child::wait_with_output (recorded; any outcome)"),
+                 (re.compile(r"^(std::process::)?ExitStatus::success$"), success, "ExitStatus::success"),
+                 (re.compile(r"^std::mem::drop::<"), lambda ex_, st, a, d, f, w: UNIT, "mem::drop"),
+                 (re.compile(r"^<(std::string::)?String as Deref>::deref$|^<Vec<u8> as Deref>::deref$"), lambda ex_, st, a, d, f, w: VRef("val", val=fsmodels._deep(ex_, st, a[0])), "String/Vec deref"),
+                 (re.compile(r"^<(\{async fn body of (tokio::[\w:]+(<.*>)?)\(\)\}|tokio::io::util::flush::Flush<'_, tokio::fs::File>) as (std::future::)?Future>::poll$"), poll_ready, "poll of a ready library future"),
+                 ] + ex.models
+    st = State()
+    st.frames[0] = {"co": VEnum("Coroutine", I(0), {-1: [VRef("val", val=strv(z3.Int("REMOTE_PATH"))), VRef("val", val=strv(z3.Int("HOST"))), VRef("val", val=pathv(LOCAL))]})}
+    body = asyncmodels.find_body(ex, "async block@src/bin/copia/dir_sync.rs:27:1: 27:59")
+    if body is None:
+        cands = [v for k, v in asyncmodels.body_index(ex).items() if "dir_sync.rs" in k and "async block" in k]
+        body = cands[0] if len(cands) == 1 else None
+    fn = ex.find_fn(body) if body else None
+    if fn is None:
+        raise Inconclusive("no MIR body for the instrumented block of transfer_file_from_remote")
+    poll = ex.exec_fn(fn, [VStruct("Pin", [VRef("place", 0, "co")]), VOpaque("Context")], st)
+    if poll is None or 0 not in poll.pay:
+        raise Inconclusive("transfer_file_from_remote never becomes Ready")
+    ex.exit_guards.append(st.guard)
+    res = poll.pay[0][0]
+    ok = z3.And(poll.discr == 0, res.discr == 0)
+    eff = fsmodels.effects(ex)
+    opens = [e for e in eff if e["call"] in ("create", "open-options")]
+    copies = ev.get("copies", [])
+    fs_like = [e for e in eff if e["call"] in ("create", "open-options", "stream-into", "flush-file", "remove_file", "rename")]
+    goals = {
+        "the-local-file-is-opened-creating-AND-truncating,-never-exclusively-(a-leftover-from-a-killed-run-must-not-block-the-re-run)": _all(
+            z3.Implies(e["guard"], z3.And(e["path"] == LOCAL, e["flags"].get("create", z3.BoolVal(False)), e["flags"].get("truncate", z3.BoolVal(False)),
+                                          z3.Not(e["flags"].get("create_new", z3.BoolVal(False))))) for e in opens),
+        "nothing-but-the-given-local-path-is-touched": _all(z3.Implies(e["guard"], e["path"] == LOCAL) for e in fs_like),
+        "Ok(n)-only-if-the-child-was-spawned,-its-output-streamed-(n-bytes)-and-flushed,-and-it-exited-successfully": z3.Implies(ok, z3.And(
+            ev["spawn"]["ok"], ev["has_out"], _any(z3.And(e["guard"], e["ok"]) for e in opens),
+            _any(z3.And(c["guard"], c["ok"], res.pay[0][0].t == c["count"]) for c in copies) if 0 in res.pay else z3.BoolVal(False),
+            _any(z3.And(f["guard"], f["ok"]) for f in ev.get("flushes", [])),
+            ev["wait"]["guard"], ev["wait"]["ok"], ev["wait"]["success"])) if "wait" in ev and "spawn" in ev else z3.BoolVal(False),
+    }
+    prover.prove(ex, goals, "%s/transfer_file_from_remote" % pid,
+                 "any host / remote path / local path; spawn, the stdout pipe, file creation, streaming, flush, wait and the exit status are arbitrary inputs; one schedule",
+                 [fn.name], native_pull_witness(R, pid), covers={"ok-reachable": ok})
+
+
+class PullCtx:
+    def __init__(self):
+        def keep(n):
+            return n.startswith("transfer_file_from_remote")
+        self.mir, self.mir_path, self.dump_s = env.load("bin", keep)
+        self.idx = env.impl_index(self.mir)
+        self.enums = env.source_enums()
+
+
 def run_local_obligation(ctx, R, prover, U):
     ex = ctx.ex(K=U + 4)
     _tokio_fs(ex)
@@ -378,10 +530,32 @@ def native_case(case, profile):
         os.makedirs(d)
         _write_tree(s, case["src"])
         _write_tree(d, case["dst"])
-        args = [exe, "sync", "-r", s, d] + (["--delete"] if case.get("delete") else []) + (["--dry-run"] if case.get("dry") else [])
+        envp = dict(os.environ)
+        src_arg = s
+        if case.get("pull"):
+            # no sshd in the sandbox: a two-line `ssh` that runs the remote command locally stands in for the transport
+            bindir = os.path.join(base, "bin")
+            os.makedirs(bindir)
+            with open(os.path.join(bindir, "ssh"), "w") as f:
+                f.write("#!/bin/bash\nwhile [[ \"$1\" == -* ]]; do shift; done\nshift\nexec bash -c \"$*\"\n")
+            os.chmod(os.path.join(bindir, "ssh"), 0o755)
+            envp["PATH"] = bindir + ":" + envp["PATH"]
+            src_arg = "fakehost:" + s
+        dst_arg = d
+        if case.get("push"):
+            bindir = os.path.join(base, "bin")
+            os.makedirs(bindir, exist_ok=True)
+            with open(os.path.join(bindir, "ssh"), "w") as f:
+                f.write("#!/bin/bash\nwhile [[ \"$1\" == -* ]]; do shift; done\nshift\nexec bash -c \"$*\"\n")
+            os.chmod(os.path.join(bindir, "ssh"), 0o755)
+            envp["PATH"] = bindir + ":" + envp["PATH"]
+            dst_arg = "fakehost:" + d
+        if not case.get("push"):
+            dst_arg = d
+        args = [exe, "sync", "-r", src_arg, dst_arg] + (["--delete"] if case.get("delete") else []) + (["--dry-run"] if case.get("dry") else [])
         for x in case.get("excludes", []):
             args += ["--exclude", x]
-        p = subprocess.run(args, stdout=subprocess.PIPE, stderr=subprocess.PIPE, text=True, timeout=120)
+        p = subprocess.run(args, stdout=subprocess.PIPE, stderr=subprocess.PIPE, text=True, timeout=120, env=envp)
         return {"rc": p.returncode, "src": _read_tree(s), "dst": _read_tree(d), "stderr": p.stderr[-300:]}
     finally:
         shutil.rmtree(base, ignore_errors=True)
@@ -428,6 +602,53 @@ def scenarios():
     out.append({"src": {}, "dst": dst, "delete": False})
     out.append({"src": {"n": ("1", T)}, "dst": {}, "delete": False})
     return out
+
+
+def pull_scenarios():
+    T = 1_700_000_000
+    src = {"a": ("one", T), "d/b": ("two", T + 5), "same": ("same", T + 9)}
+    return [{"pull": True, "src": src, "dst": {"a": ("ONE", T), "same": ("same", T + 9), "stale": ("old", T)}, "delete": True},
+            # leftovers of a killed pull (reserved staging names) must not make the re-run fail
+            {"pull": True, "src": src, "dst": {"a": ("ONE", T), "a.copia-tmp": ("partial", T), "d/b.copia-tmp": ("", T)}, "delete": False, "leftovers": True}]
+
+
+def judge_native(c, r):
+    want = expect_case(c)
+    if c.get("leftovers"):
+        got = {k: v for k, v in r["dst"].items() if not k.endswith(".copia-tmp")}
+        want = {k: v for k, v in want.items() if not k.endswith(".copia-tmp")}
+        if r["rc"] != 0:
+            return "the re-run over leftover staging files fails (exit %d): %s" % (r["rc"], r["stderr"][-200:])
+        if got != want:
+            return "destination (staging names aside) is %s, expected %s" % (json.dumps(got)[:300], json.dumps(want)[:300])
+        return None
+    if r["rc"] != 0:
+        return "exit status %d: %s" % (r["rc"], r["stderr"])
+    if r["dst"] != want:
+        return "destination is %s, expected %s" % (json.dumps(r["dst"])[:300], json.dumps(want)[:300])
+    if r["src"] != c["src"]:
+        return "the source tree was modified"
+    if any(k.endswith(".copia-tmp") for k in r["dst"]):
+        return "a staging file remains"
+    return None
+
+
+def native_pull_witness(R, pid):
+    def w(name, model, neg):
+        for prof in ("dev", "release"):
+            for c in pull_scenarios():
+                try:
+                    r = native_case(c, prof)
+                except subprocess.TimeoutExpired:
+                    continue
+                d = judge_native(c, r)
+                if d:
+                    c = dict(c)
+                    c["deviation"] = d
+                    return {"confirmed": True, "replay_path": R.save_replay("%s/native-pull" % pid, {"fn": "copia_sync_local", **c}), "key": "%s/native-pull/%s" % (pid, name[:40]),
+                            "detail": "the real `copia sync -r fakehost:SRC DST` through a local stand-in for ssh (%s): %s" % (prof, d)}
+        return {"confirmed": False, "detail": "the real pull (through a local stand-in for ssh) behaves as specified, also over leftover staging files"}
+    return w
 
 
 def native_witness(R, pid):
@@ -516,6 +737,24 @@ def native_validation(R):
                 break
         if bad:
             break
+    # pull and push through a local stand-in for ssh (the real binary, the real remote shell commands, run locally)
+    if not bad:
+        T = 1_700_000_000
+        src = {"a": ("one", T), "d/b": ("two", T + 5), "same": ("same", T + 9), "d/grown.txt": ("the new, longer content", T - 7)}
+        dst = {"a": ("ONE", T), "same": ("same", T + 9), "stale": ("old", T), "d/grown.txt": ("old", T - 7)}
+        remote = [{"pull": True, "src": src, "dst": dst, "delete": True}, {"push": True, "src": src, "dst": dst, "delete": True},
+                  {"push": True, "src": src, "dst": dst, "delete": False, "dry": True}]
+        for prof in ("dev",):
+            for c in remote:
+                try:
+                    r = native_case(c, prof)
+                except subprocess.TimeoutExpired:
+                    continue
+                d_ = judge_native(c, r)
+                if d_:
+                    bad = (prof, c, ("pull" if c.get("pull") else "push") + " through a local stand-in for ssh: " + d_)
+                    break
+        cases = cases + remote
     R.validation["cases"] += 2 * len(cases)
     if bad:
         prof, c, d = bad
